@@ -39,6 +39,55 @@ ENV = dict(os.environ, ASAN_OPTIONS="detect_leaks=0:abort_on_error=0", SOURCE_DA
 
 
 # ----------------------------------------------------------------------------
+# generated constants: the decoder limits the working tree really passes to liblzma / zlib / libbz2 / libzstd
+# (runs when ./check imports this file, i.e. before the proofs are compiled)
+# ----------------------------------------------------------------------------
+LIMITS = {}
+
+
+def regen_limits():
+    import shutil
+    import tempfile
+    d = tempfile.mkdtemp(prefix="verif-c15gen.")
+    try:
+        src = os.path.join(HERE, "gen_limits.c")
+        inc = ["-I" + os.path.join(B.REPO, "include"), "-I" + os.path.dirname(B.config_h_path()), "-I" + B.REPO]
+        objs = []
+        procs = []
+        for w in ("XZ", "GZIP", "BZIP2", "ZSTD", "MAIN"):
+            o = os.path.join(d, w + ".o")
+            objs.append(o)
+            procs.append(subprocess.Popen(["gcc", "-w", "-c", "-DGEN_" + w] + inc + [src, "-o", o],
+                                          stdout=subprocess.PIPE, stderr=subprocess.STDOUT, text=True))
+        outs = [p.communicate()[0] for p in procs]
+        if any(p.returncode != 0 for p in procs):
+            return "gen_limits.c does not compile against the current lib/xfrm/src: " + " ".join(outs)[-800:]
+        exe = os.path.join(d, "g")
+        rc, out = core.sh(["gcc"] + objs + ["-o", exe, "-llzma", "-lz", "-lbz2", "-lzstd"])
+        if rc != 0:
+            return "gen_limits does not link: " + out[-800:]
+        r = subprocess.run([exe], capture_output=True, text=True, timeout=30)
+        if r.returncode != 0:
+            return "gen_limits failed: " + r.stderr[-400:]
+        txt = r.stdout
+        for m in re.finditer(r"Definition c_(\w+) : N := (\d+)\.", txt):
+            LIMITS[m.group(1)] = int(m.group(2))
+        dst = os.path.join(core.COQ, "C15", "GenC15Limits.v")
+        with core.Lock("coq"):
+            old = open(dst).read() if os.path.exists(dst) else None
+            if old != txt:
+                open(dst, "w").write(txt)
+        return None
+    except Exception as e:      # noqa
+        return "gen_limits: %r" % (e,)
+    finally:
+        shutil.rmtree(d, ignore_errors=True)
+
+
+GEN_ERROR = regen_limits()
+
+
+# ----------------------------------------------------------------------------
 # building
 # ----------------------------------------------------------------------------
 def build_harness(info):
@@ -869,6 +918,23 @@ def chunk_oracle(S):
     return bad
 
 
+# ---------------- decoder-side resource limits (props/C15/declimits.py) ---------
+def limits_oracle(S):
+    """valid streams at the extremes of what a decoder must provide (xz dictionary up to 96 MiB, zstd window up to 2^27, deflate
+    distances up to 32 KiB / window bits 9..15, bzip2 block sizes 1..9, xz filter chains and checks): image of the plain archive;
+    beyond the must-accept set: the answer of the admission model (coq/C15/DecLimits.v) for the tree's own constants"""
+    import declimits as DL
+    rnd = random.Random(S.ctx.seed * 3571 + 158)
+    lim = dict(LIMITS)
+    lim.setdefault("xz_dec_memlimit", 128 << 20)
+    lim.setdefault("zstd_dec_wlogmax", 27)
+    bad, stats = DL.run_matrix(S, lim, mk_tar, ref_decompress, tar2sqfs_image, b64, rnd, only=S.replay_limits)
+    S.ctx.coverage["evaluations"] = S.ctx.coverage.get("evaluations", 0) + stats["cases"]
+    S.ctx.coverage["distinct_nontrivial"] = S.ctx.coverage.get("distinct_nontrivial", 0) + stats["compared"] + stats["tie_cases"]
+    S.ctx.coverage.setdefault("distribution", {})["decoder_limits_matrix"] = stats
+    return bad
+
+
 # ---------------- main ------------------------------------------------------
 def load_corpus():
     p = os.path.join(HERE, "corpus.txt")
@@ -880,6 +946,8 @@ def load_corpus():
 def run(ctx):
     S = State()
     S.ctx = ctx
+    if GEN_ERROR:
+        ctx.proof_broken.append("C15/GenC15Limits.v: " + GEN_ERROR)
     counter = [0]
 
     def next_id():
@@ -901,6 +969,9 @@ def run(ctx):
         "codec contract (coq/C15/XfrmSpec.v: dec_contract / enc_contract): the real zlib/liblzma/libbz2/libzstd are ASSUMED to meet it; "
         "their behaviour is only sampled (component + tool oracle against Python zlib/lzma/bz2 and the system libzstd via refzstd.c)",
         "reference decompressors: CPython zlib/lzma/bz2 modules, system libzstd (props/C15/refzstd.c)",
+        "props/C15/gen_limits.c (interception of lzma_stream_decoder / inflateInit2 / BZ2_bzDecompressInit / ZSTD_DCtx_setParameter in the "
+        "tree's sources -> coq/C15/GenC15Limits.v); props/C15/declimits.py: hand-written xz / zstd containers and the Python twins of "
+        "lzma2_dict_size / zstd_window_size (same numbers as the Examples of Properties_C15.v); liblzma's decoder overhead < 1 MiB",
         "extraction with nat -> OCaml int (ExtrOcamlNatInt); ASan/UBSan verdicts; wall-clock hang detection (no output for "
         "6-10 s / tool timeout 25-40 s)",
     ]
@@ -921,12 +992,16 @@ def run(ctx):
     S.replay_tool = None
     S.replay_detect = None
     S.replay_chunk = None
-    do_toy = do_real = do_tool = do_detect = do_chunk = True
+    S.replay_limits = None
+    do_toy = do_real = do_tool = do_detect = do_chunk = do_limits = True
     if ctx.replay:
         rp = json.load(open(ctx.replay))
         k = rp.get("kind", "")
-        do_toy = do_real = do_tool = do_detect = do_chunk = False
-        if k == "tool-chunked":
+        do_toy = do_real = do_tool = do_detect = do_chunk = do_limits = False
+        if k == "tool-limits" and rp.get("tar_b64") and rp.get("input_b64"):
+            S.replay_limits = rp
+            do_limits = True
+        elif k == "tool-chunked":
             S.replay_chunk = rp
             do_chunk = True
         elif k == "tool-detect":
@@ -960,13 +1035,14 @@ def run(ctx):
             S.replay_tool = [(files, tar, "replay")]
             do_tool = True
         else:
-            do_toy = do_real = do_tool = do_detect = do_chunk = True
+            do_toy = do_real = do_tool = do_detect = do_chunk = do_limits = True
 
     parts = os.environ.get("C15_PARTS")
     if parts:
         do_toy, do_real, do_tool = ("toy" in parts and do_toy), ("real" in parts and do_real), ("tool" in parts and do_tool)
         do_detect = "detect" in parts and do_detect
         do_chunk = "chunk" in parts and do_chunk
+        do_limits = "limits" in parts and do_limits
     tie_bad, prop_bad = ([], [])
     if do_toy:
         tie_bad, prop_bad = toy_tie(S)
@@ -983,7 +1059,11 @@ def run(ctx):
     ctx.log("format detection matrix done: %d failures" % len(detect_bad))
     chunk_bad = chunk_oracle(S) if do_chunk else []
     ctx.log("chunked pipe matrix done: %d failures" % len(chunk_bad))
-    tool_bad = chunk_bad + detect_bad + tool_bad
+    limits_bad = limits_oracle(S) if do_limits else []
+    ctx.log("decoder limits matrix done: %d failures (limits of the tree: %s)" % (len(limits_bad), LIMITS))
+    tie_limits = [t for t in limits_bad if t[0].startswith("tie-declimit:")]
+    limits_bad = [t for t in limits_bad if not t[0].startswith("tie-declimit:")]
+    tool_bad = limits_bad + chunk_bad + detect_bad + tool_bad
 
     seen = set()
     for l, (sig, why), rc, rm in prop_bad:
@@ -1011,6 +1091,11 @@ def run(ctx):
                       dict(kind="toy", line=l if len(l) < 200000 else l[:200000], impl=rc[:300], model=rm[:300],
                            correspondence="props/C15: extracted XfrmModel+ToyCodec = istream.c/ostream.c/{gzip,xz,bzip2,zstd}.c on toy.h (exact trace)"),
                       no_input=True)
+    if tie_limits and not limits_bad:
+        sig, why, rep = tie_limits[0]
+        rep = dict(rep, correspondence="props/C15: admission model coq/C15/DecLimits.v with the constants of C15/GenC15Limits.v = tar2sqfs on "
+                                       "hand-written xz / zstd headers beyond the must-accept set")
+        ctx.violation(sig, why + "; every must-accept input still converts", rep, no_input=True)
     ctx.coverage["rule"] = (
         "seed %d. toy tie per driver (gzip,xz,bzip2,zstd): 17 directed istream + 6 directed ostream cases at the proofs' case splits "
         "(plain size BUFSZ-1/BUFSZ/BUFSZ+1 and cuts before/inside the end marker, final run longer than the buffer so that END comes from a call "
@@ -1031,6 +1116,14 @@ def run(ctx):
         "(writer polls FIONREAD until the reader took it) x later chunks {1,511,4096}, and plain POSIX/GNU archives whose first name "
         "begins with a codec magic x first chunk {3,6,100,256,257,262,263,511} (inside the first header, around the ustar probe): image "
         "equal to the regular-file arrival of the plain archive. "
+        "decoder limits matrix: two archives (200 KB with 3000-byte repeats at distance ~32 KiB; 1.28 MB with > 900 kB of text) x "
+        "xz {stored LZMA2 chunks under a hand-written header announcing dictionary bits 0..26 (one per run), 28 = 64 MiB, 29 = 96 MiB "
+        "(two blocks), python lzma with dict_size 64 MiB+1 / 96 MiB, delta+lzma2, x86+lzma2, sha256 / no check, lc/lp/pb extremes}, zstd "
+        "{raw-block frames announcing windows 1 KiB, 2^27, 120 MiB, one random descriptor, with frame content size; libzstd "
+        "windowLog 27 + long distance matching}, gzip {window bits 9 and 15, stored, fixed Huffman, members of mixed window bits}, bzip2 "
+        "{block size 1, 5, 9, nine members of levels 1..9}: each first restored by the reference decompressor, then image equal to the "
+        "plain archive's; beyond the must-accept set (xz 128 MiB, zstd 144 MiB): answer predicted by coq/C15/DecLimits.v from the "
+        "constants measured on the tree (gen_limits.c). "
         "non-trivial = non-empty plain data / magic hit" % ctx.seed)
 
 
